@@ -258,11 +258,17 @@ def judge(ctx, c, answers):
     # finite languages
     L1, L2 = set(c['L1']), set(c['L2'])
     Sig, n = set(c['Sigma']), c['n']
+    # other legal containers / one-shot iterables for concatenation (itertools.product in the implementation materialises both operands)
+    for label, a1, a2 in (('list, frozenset', list(L1), frozenset(L2)), ('iterators', iter(sorted(L1)), (w for w in sorted(L2)))):
+        g = call(LA.concatenation, a1, a2)
+        if g.get('ok') != {u + v for u in L1 for v in L2}:
+            ctx.violation('language-helper:concatenation(%s)' % label, {'case': c, 'impl': str(g)[:200]})
     exp = [
         ('language_reverse', call(LA.language_reverse, set(L1)), {w[::-1] for w in L1}),
         ('language_no_prefix', call(LA.language_no_prefix, set(L1)), {w for w in L1 if not any(w[:i] in L1 for i in range(len(w)))}),
         ('language_no_extend', call(LA.language_no_extend, set(L1)), {w for w in L1 if not any(v != w and v.startswith(w) for v in L1)}),
         ('concatenation', call(LA.concatenation, set(L1), set(L2)), {u + v for u in L1 for v in L2}),
+
         ('union', call(LA.union, set(L1), set(L2)), L1 | L2),
         ('intersection', call(LA.intersection, set(L1), set(L2)), L1 & L2),
         ('symmetric_difference', call(LA.symmetric_difference, set(L1), set(L2)), L1 ^ L2),
